@@ -67,9 +67,9 @@ func exprD(v ssa.Value, d int, seen map[ssa.Value]bool) string {
 	}
 	switch x := v.(type) {
 	case *ssa.Parameter:
-		return x.Name()
+		return VarName(x)
 	case *ssa.FreeVar:
-		return "^" + x.Name()
+		return "^" + VarName(x)
 	case *ssa.Const:
 		return constStr(x)
 	case *ssa.Global:
@@ -80,12 +80,12 @@ func exprD(v ssa.Value, d int, seen map[ssa.Value]bool) string {
 		return x.Name()
 	case *ssa.Alloc:
 		if x.Comment != "" {
-			return "&" + x.Comment
+			return "&" + VarName(x)
 		}
 		return "&new"
 	case *ssa.Phi:
 		if seen[x] {
-			return "φ" + x.Comment
+			return "φ" + VarName(x)
 		}
 		seen[x] = true
 		defer delete(seen, x)
@@ -95,7 +95,7 @@ func exprD(v ssa.Value, d int, seen map[ssa.Value]bool) string {
 		}
 		sort.Strings(parts)
 		parts = uniq(parts)
-		return "φ" + x.Comment + "{" + strings.Join(parts, "|") + "}"
+		return "φ" + VarName(x) + "{" + strings.Join(parts, "|") + "}"
 	case *ssa.Call:
 		var args []string
 		_, isBuiltin := x.Call.Value.(*ssa.Builtin)
@@ -128,11 +128,11 @@ func exprD(v ssa.Value, d int, seen map[ssa.Value]bool) string {
 				return exprD(a, d, seen)
 			case *ssa.Alloc:
 				if a.Comment != "" {
-					return a.Comment
+					return VarName(a)
 				}
 				return "*new"
 			case *ssa.FreeVar:
-				return "^" + a.Name()
+				return "^" + VarName(a)
 			}
 			return "*" + exprD(x.X, d-1, seen)
 		case token.NOT:
